@@ -119,8 +119,8 @@ def selftest(run):
     run.selftest['script_vectors_skipped(unimplemented flags / signature ops)'] = skipped
 
 
-def compare_eval(script, init, fs, what, checksig=None, tx=None):
-    a = L.run_lib_eval(script, init, fs, tx=tx)
+def compare_eval(script, init, fs, what, checksig=None, tx=None, idx=0):
+    a = L.run_lib_eval(script, init, fs, tx=tx, idx=idx)
     b = L.run_ref_eval(script, init, fs, checksig)
     if a[0] == 'EXC':
         raise Viol('%s: EvalScript raised a non-validation exception' % what, b[0], a[1])
@@ -281,7 +281,7 @@ class Operands(Family):
     nontrivial_rule = 'every case (operand encodings at the number-format boundaries)'
 
     def shards(self, tier):
-        return [('un',), ('bin', 0), ('bin', 1), ('bin', 2), ('bin', 3), ('within', 0), ('within', 1), ('within', 2), ('pick',), ('hash', 0), ('hash', 1), ('ripemd', 0), ('ripemd', 1), ('ripemd', 2), ('revisit',)]
+        return [('un',), ('bin', 0), ('bin', 1), ('bin', 2), ('bin', 3), ('within', 0), ('within', 1), ('within', 2), ('pick',), ('hash', 0), ('hash', 1), ('ripemd', 0), ('ripemd', 1), ('ripemd', 2), ('revisit',), ('truth',)]
 
     def cases(self, shard, tier):
         n = len(NUMS)
@@ -312,6 +312,12 @@ class Operands(Family):
             for op in (0xa6, 0xa9):
                 for n in (600, 1100):
                     yield ('revisit', n, op)
+        elif shard[0] == 'truth':
+            # truth value of LONG stack items (beyond the 4-byte number format, beyond 8 bytes, up to the 520-byte limit)
+            for l in list(range(1, 20)) + [31, 32, 33, 64, 65, 75, 76, 255, 256, 519, 520]:
+                for pat in ('zeros', 'negzero', 'one_first', 'one_last', 'sign_first', 'ff', 'x80_mid', 'last_81'):
+                    for use in (0x69, 0x73, 0x63, 0x64, 0x91, 0x92, 'final'):
+                        yield ('truth', l, pat, use)
         else:
             for l in range(0, 601):
                 yield ('hash', l, 0xa6 if shard[1] == 0 else (0xa6 + 1000 * shard[1]))
@@ -326,6 +332,34 @@ class Operands(Family):
             _, depth, idx, op = case
             init = tuple(bytes([0x20 + i]) for i in range(depth)) + (idx,)
             return compare_eval(bytes([op]), init, NONE, 'PICK/ROLL'), True
+        if case[0] == 'truth':
+            _, l, pat, use = case
+            d = bytearray(l)
+            if pat == 'negzero':
+                d[-1] = 0x80
+            elif pat == 'one_first':
+                d[0] = 1
+            elif pat == 'one_last':
+                d[-1] = 1
+            elif pat == 'sign_first':
+                d[0] = 0x80
+            elif pat == 'ff':
+                d = bytearray(b'\xff' * l)
+            elif pat == 'x80_mid':
+                d[l // 2] = 0x80
+            elif pat == 'last_81':
+                d[-1] = 0x81
+            d = bytes(d)
+            if use == 'final':
+                # the item is the only thing on the stack when VerifyScript looks at the result
+                for fs in (NONE, frozenset([RI.CLEANSTACK, RI.P2SH])):
+                    a = L.run_lib_verify(push(d), b'\x61', fs)
+                    b = L.run_ref_verify(push(d), b'\x61', fs)
+                    if a[0] != b[0]:
+                        raise Viol('VerifyScript with a %d-byte final stack item (%s, flags %s)' % (l, pat, sorted(fs)), b, a)
+                return 'final', True
+            tail = b'\x51\x68' if use in (0x63, 0x64) else b''
+            return compare_eval(bytes([use]) + tail, (d,), NONE, 'truth value of a %d-byte stack item (%s)' % (l, pat)), True
         if case[0] == 'revisit':
             # n distinct messages are hashed one after the other in this process, then the first 150 again: the digest of a
             # message never depends on what was hashed in between
@@ -622,6 +656,97 @@ class SignatureOps(Family):
         return compare_eval(body, (sig,), NONE, 'CODESEPARATOR %s, signature over the script from %s' % (pos, signed_from), checksig=cs, tx=tx), True
 
 
+class ChecksigEditHistories(Family):
+    """ONE mutable spending transaction object serves a sequence of signature checks while the caller edits it in place
+    between them (and edits it back): every CHECKSIG / CHECKMULTISIG verdict is the reference verdict for the
+    transaction's field values at the time of that call - a signature made for the earlier values is accepted afterwards
+    exactly when its hash type does not commit to the edited field"""
+    name = 'checksig_on_one_transaction_edited_in_place'
+    engine = 'E2'
+    nontrivial_rule = 'every case (four checks around one in-place edit and its reversal)'
+
+    EDITS = ('value0', 'value1', 'locktime', 'seq_own', 'seq_other', 'add_out', 'drop_out', 'prevout_other', 'version')
+
+    def cases(self, shard, tier):
+        for op in ('cs', 'ms'):
+            for ht in (1, 2, 3, 0x81, 0x82, 0x83):
+                for edit in self.EDITS:
+                    for idx in (0, 1):
+                        yield (op, ht, edit, idx)
+
+    def check(self, case):
+        import copy
+        from bitcoin.core import CMutableTxOut
+        from bitcoin.core.script import CScript
+        op, ht, edit, idx = case
+        m = copy.deepcopy(L.TX_MODEL)
+        tx = C.lib_tx(m, mutable=True)
+        sec = SIGKEYS[0]
+        pub = EC.pubkey(sec, True)
+        script = push(pub) + b'\xac' if op == 'cs' else b'\x51' + push(pub) + b'\x51\xae'
+
+        def sig_now():
+            d, err = SH.legacy(script, m, idx, ht)
+            return _sign(sec, d, ht)
+
+        def look(sig, when):
+            init = (sig,) if op == 'cs' else (b'', sig)
+            return compare_eval(script, init, NONE, '%s with hash type %#x on ONE mutable transaction %s (input %d)' % ('CHECKSIG' if op == 'cs' else 'CHECKMULTISIG', ht, when, idx),
+                                checksig=L.make_checksig(m, idx), tx=tx, idx=idx)
+        old = sig_now()
+        look(old, 'before any edit')
+        saved = copy.deepcopy(m)
+        other = 1 - idx
+        if edit == 'value0':
+            tx.vout[0].nValue = m['vout'][0]['value'] = 7
+        elif edit == 'value1':
+            tx.vout[1].nValue = m['vout'][1]['value'] = 7
+        elif edit == 'locktime':
+            tx.nLockTime = m['locktime'] = 1
+        elif edit == 'version':
+            tx.nVersion = m['version'] = 1
+        elif edit == 'seq_own':
+            tx.vin[idx].nSequence = m['vin'][idx]['seq'] = 5
+        elif edit == 'seq_other':
+            tx.vin[other].nSequence = m['vin'][other]['seq'] = 5
+        elif edit == 'prevout_other':
+            tx.vin[other].prevout.n = m['vin'][other]['n'] = 9
+        elif edit == 'add_out':
+            tx.vout.append(CMutableTxOut(3, CScript(b'\x52')))
+            m['vout'].append({'value': 3, 'script': b'\x52'})
+        else:
+            tx.vout.pop()
+            m['vout'].pop()
+        look(old, 'after in-place edit %s, signature made before the edit' % edit)
+        new = sig_now()
+        look(new, 'after in-place edit %s, signature made after the edit' % edit)
+        look(old, 'after in-place edit %s, earlier signature again' % edit)
+        # edit back
+        if edit == 'add_out':
+            tx.vout.pop()
+        elif edit == 'drop_out':
+            tx.vout.append(CMutableTxOut(saved['vout'][-1]['value'], CScript(saved['vout'][-1]['script'])))
+        elif edit == 'value0':
+            tx.vout[0].nValue = saved['vout'][0]['value']
+        elif edit == 'value1':
+            tx.vout[1].nValue = saved['vout'][1]['value']
+        elif edit == 'locktime':
+            tx.nLockTime = saved['locktime']
+        elif edit == 'version':
+            tx.nVersion = saved['version']
+        elif edit == 'seq_own':
+            tx.vin[idx].nSequence = saved['vin'][idx]['seq']
+        elif edit == 'seq_other':
+            tx.vin[other].nSequence = saved['vin'][other]['seq']
+        else:
+            tx.vin[other].prevout.n = saved['vin'][other]['n']
+        m.clear()
+        m.update(saved)
+        look(new, 'after the edit %s was undone, signature made for the edited values' % edit)
+        look(old, 'after the edit %s was undone, original signature' % edit)
+        return edit, True
+
+
 # -------------------------------------------------------------------------------------------------------------
 def pair_alphabet():
     ops = [0x00, 0x4f, 0x51, 0x52, 0x60, 0x61, 0x63, 0x64, 0x67, 0x68, 0x69, 0x6a, 0x6b, 0x6c, 0x6d, 0x73, 0x74, 0x75, 0x76, 0x77, 0x7c, 0x82, 0x87, 0x88, 0x8b,
@@ -745,4 +870,4 @@ class P2SHPairs(Family):
 
 
 def families(tier):
-    return [Programs(), InterpStates(NONE, 'noflags'), InterpStates(BOTH, 'discourage_nulldummy'), DeepStackStates(), Operands(), StackOps(), FlowControl(), Limits(), SignatureOps(), VerifyPairs(), P2SHPairs()]
+    return [Programs(), InterpStates(NONE, 'noflags'), InterpStates(BOTH, 'discourage_nulldummy'), DeepStackStates(), Operands(), StackOps(), FlowControl(), Limits(), SignatureOps(), ChecksigEditHistories(), VerifyPairs(), P2SHPairs()]
